@@ -352,6 +352,76 @@ def apply_mutant(sources, m):
     return out
 
 
+def apply_unified_diff(sources, diff_text):
+    """apply a git-style unified diff to the in-memory sources; None when a hunk does not apply"""
+    import re
+    out = dict(sources)
+    files = re.split(r'^diff --git .*$', diff_text, flags=re.M)
+    for chunk in files:
+        m = re.search(r'^\+\+\+ b/(\S+)', chunk, flags=re.M)
+        if not m:
+            continue
+        path = m.group(1)
+        if path not in out:
+            return None
+        lines = out[path].split('\n')
+        hunks = re.split(r'^@@ ', chunk, flags=re.M)[1:]
+        offset = 0
+        for h in hunks:
+            hm = re.match(r'-(\d+)(?:,(\d+))? \+(\d+)(?:,(\d+))? @@.*\n', h)
+            if not hm:
+                return None
+            start = int(hm.group(1))
+            body = h[hm.end():].split('\n')
+            old, new = [], []
+            for ln in body:
+                if ln.startswith('\\'):
+                    continue
+                if ln.startswith('-'):
+                    old.append(ln[1:])
+                elif ln.startswith('+'):
+                    new.append(ln[1:])
+                elif ln.startswith(' ') or ln == '':
+                    if ln == '' and body.index(ln) == len(body) - 1:
+                        continue
+                    old.append(ln[1:])
+                    new.append(ln[1:])
+            # drop a trailing artefact of the final split
+            while old and new and old[-1] == '' and new[-1] == '' and len(old) > int(hm.group(2) or 1):
+                old.pop()
+                new.pop()
+            pos = start - 1 + offset
+            if lines[pos:pos + len(old)] != old:
+                # search nearby
+                found = None
+                for d in range(-40, 41):
+                    if pos + d >= 0 and lines[pos + d:pos + d + len(old)] == old:
+                        found = pos + d
+                        break
+                if found is None:
+                    return None
+                pos = found
+            lines[pos:pos + len(old)] = new
+            offset += len(new) - len(old)
+        out[path] = '\n'.join(lines)
+        try:
+            ast.parse(out[path])
+        except SyntaxError:
+            return None
+    return out
+
+
+def seeded_for(pid):
+    from .framework import VERIF
+    base = os.path.join(VERIF, 'seeded')
+    out = []
+    if os.path.isdir(base):
+        for d in sorted(os.listdir(base)):
+            if d.startswith(pid + '-') and os.path.exists(os.path.join(base, d, 'patch.diff')):
+                out.append((d, open(os.path.join(base, d, 'patch.diff'), encoding='utf-8').read()))
+    return out
+
+
 def mutants_for(pid):
     from .mutants import MUTANTS
     return [m for m in MUTANTS if pid in m['props']]
@@ -386,11 +456,26 @@ def thorough_extra(program, pid, ctx, jobs=None):
             stale.append(m['id'])
         else:
             ctl_args.append((m['id'], pid, s2))
+    seed_args = []
+    for sid, diff in seeded_for(pid):
+        s2 = apply_unified_diff(sources, diff)
+        if s2 is None:
+            stale.append('seeded/' + sid)
+        else:
+            seed_args.append(('seeded/' + sid, pid, s2))
     t0 = time.time()
     with multiprocessing.Pool(jobs) as pool:
         twin_res = pool.map(_twin_job, twin_args)
         mut_res = pool.map(_mutant_job, mut_args)
         ctl_res = pool.map(_mutant_job, ctl_args)
+        seed_res = pool.map(_mutant_job, seed_args)
+    seeds_reported = []
+    for mid, _, v, e, n in seed_res:
+        new = set(map(tuple, v)) - base_viol
+        if new:
+            seeds_reported.append({'seeded': mid, 'reported_by': sorted({r for r, _ in new})})
+        elif not base_viol:
+            errors.append('seeded change %s is not reported by %s' % (mid, pid))
     for mid, _, v, e, n in ctl_res:
         new = set(map(tuple, v)) - base_viol
         if new or e:
@@ -425,6 +510,9 @@ def thorough_extra(program, pid, ctx, jobs=None):
         'selfvalidation': {
             'silent_twins': twins_report,
             'controls_run': len(ctl_res),
+            'seeded_changes_run': len(seed_res),
+            'seeded_changes_reported': len(seeds_reported),
+            'seeded_samples': seeds_reported[:6],
             'firing_variants_run': len(mut_res),
             'firing_variants_reported': len(fired),
             'firing_variants_stale': stale,
@@ -432,7 +520,7 @@ def thorough_extra(program, pid, ctx, jobs=None):
             'fired_samples': fired[:12],
             'wall_s': round(time.time() - t0, 2),
         },
-        'programs': 1 + len(twin_res) + len(mut_res) + len(ctl_res),
+        'programs': 1 + len(twin_res) + len(mut_res) + len(ctl_res) + len(seed_res),
     }
     return extra, errors
 
